@@ -43,6 +43,11 @@ type C15Scenario struct {
 	PoolYield bool       `json:"pool_yield"`
 	SchedSeed uint64     `json:"sched_seed"`
 	Sched     []int      `json:"sched,omitempty"`
+	// rowgroups workload: the first Pre rows are given to the parent writer (its
+	// column writers when PreCols, WriteRows otherwise) and left pending before
+	// the concurrent row groups are filled and committed
+	Pre     int  `json:"pre,omitempty"`
+	PreCols bool `json:"pre_cols,omitempty"`
 }
 
 func (s *C15Scenario) SchedPtr() *[]int { return &s.Sched }
@@ -136,8 +141,13 @@ func (C15) Gen(t *tape.Tape, tier string) any {
 		sc.Shared.W.MaxRowsPerGroup = 0 // a concurrent row group must hold its whole share
 		sc.Tasks = nil
 		k := t.Range(2, 4)
+		if t.Bool() {
+			sc.Pre = t.Range(1, sc.Shared.NRows/2)
+			sc.PreCols = t.Bool()
+		}
+		rest := sc.Shared.NRows - sc.Pre
 		for i := 0; i < k; i++ {
-			sc.Tasks = append(sc.Tasks, C15Task{Kind: "rowgroup", Lo: i * sc.Shared.NRows / k, Hi: (i + 1) * sc.Shared.NRows / k})
+			sc.Tasks = append(sc.Tasks, C15Task{Kind: "rowgroup", Lo: sc.Pre + i*rest/k, Hi: sc.Pre + (i+1)*rest/k})
 		}
 	case "async":
 		sc.F.Async = true
@@ -274,6 +284,24 @@ func c15Execute(sc *C15Scenario, c *core.Ctx, concurrent bool) (*c15exec, sched.
 			if sc.Workload == "colwriters" {
 				colWriters = sharedWriter.ColumnWriters()
 			} else {
+				// rows pending in the parent writer when the concurrent row groups are
+				// committed come first in the file
+				if sc.Pre > 0 && sc.PreCols {
+					for ci, cw := range sharedWriter.ColumnWriters() {
+						vals := columnValues(data.Rows()[:sc.Pre], ci)
+						chunk := make([]parquet.Value, len(vals))
+						for i := range chunk {
+							chunk[i] = vals[i].Clone()
+						}
+						if _, err := cw.WriteRowValues(chunk); err != nil {
+							return core.Violate("C15/setup-write-error/rowgroups", "ColumnWriter.WriteRowValues: %v", err)
+						}
+					}
+				} else if sc.Pre > 0 {
+					if _, err := sharedWriter.WriteRows(gen.CloneRows(data.Rows()[:sc.Pre])); err != nil {
+						return core.Violate("C15/setup-write-error/rowgroups", "WriteRows: %v", err)
+					}
+				}
 				for range sc.Tasks {
 					rgWriters = append(rgWriters, sharedWriter.BeginRowGroup())
 				}
